@@ -192,7 +192,29 @@ func genC06(t *rapid.T, tier string) any {
 	var W *big.Int
 	percent := gen.Chance(t, "percent", 45)
 	dec := 0
-	if percent {
+	if gen.Chance(t, "bigden", 18) {
+		// denominators around the 64-bit boundary and beyond; powers of ten are also written as percentages
+		decs := []int{16, 17, 18, 20, 25}
+		percent = gen.Chance(t, "bigden.percent", 50)
+		if percent {
+			dec = gen.Pick(t, "bigden.dec", decs)
+			W = new(big.Int).Exp(big.NewInt(10), big.NewInt(int64(2+dec)), nil)
+		} else {
+			W = new(big.Int).Set(gen.Pick(t, "bigden.w", []*big.Int{
+				new(big.Int).Lsh(big.NewInt(1), 63), new(big.Int).Sub(new(big.Int).Lsh(big.NewInt(1), 64), big.NewInt(1)),
+				new(big.Int).Lsh(big.NewInt(1), 64), new(big.Int).Exp(big.NewInt(10), big.NewInt(19), nil),
+				new(big.Int).Sub(new(big.Int).Lsh(big.NewInt(1), 63), big.NewInt(1)), new(big.Int).Exp(big.NewInt(10), big.NewInt(30), nil)}))
+		}
+		rest := new(big.Int).Set(W)
+		for i := 0; i < k-1; i++ {
+			ws[i] = big.NewInt(int64(gen.Uniform(t, "bigden.small", 1000)))
+			rest.Sub(rest, ws[i])
+		}
+		ws[k-1] = rest
+		// put the big part at a random place
+		j := gen.Uniform(t, "bigden.at", k)
+		ws[j], ws[k-1] = ws[k-1], ws[j]
+	} else if percent {
 		dec = gen.Uniform(t, "dec", 7)
 		W = new(big.Int).Exp(big.NewInt(10), big.NewInt(int64(2+dec)), nil)
 		cuts := make([]int64, k-1)
